@@ -14,7 +14,7 @@ RULE = ("luminance: all 16,777,216 colours (both tiers) against a 50-digit-decim
         "large flag + random ratios; get_wcag_level / is_readable / bulk status on pairs; luminance+ratio contracts also fire on every "
         "candidate the optimiser evaluates in a side workload. Non-trivial = every distinct colour / pair / float judged (none is skipped).")
 ASSUMPTIONS = ["oracle table computed with decimal at 50 digits; WCAG 0.03928 vs sRGB 0.04045 breakpoints select the same branch for all 8-bit values (asserted in self-test)"]
-MUST_OBSERVE = {"any": ["lum_checked", "ratio_checked", "label_checked", "contract:calculate_contrast_ratio", "pair_label_checked", "bulk_status_after_fix_checked"]}
+MUST_OBSERVE = {"any": ["lum_checked", "ratio_checked", "label_checked", "pair_label_checked", "bulk_status_after_fix_checked"]}
 EXHAUSTIVE = {"quick": ["luminance over all 2^24 colours", "ratio over all 256x256 grey pairs"],
               "thorough": ["luminance over all 2^24 colours", "ratio over all 256x256 grey pairs", "ratio of every colour vs black and vs white"]}
 LUM_TOL = 1e-12
